@@ -137,12 +137,23 @@ def two_instances(ctx, protos, per):
                 alone = [c07.outcome(p, X, f) for f in xs]
                 vlib.drain_workers()
             with engine.class_guard(p['cls']):
-                X, Y = p['cls'](), p['cls']()
+                X = p['cls']()
+                # the second decoder is built from the class or - the library's own way, protocols.<Name>(parent) - from the first one
+                spawned = rng.random() < 0.5
+                try:
+                    Y = X(None) if spawned else p['cls']()
+                except Exception:  # noqa
+                    Y, spawned = p['cls'](), False
                 mixed = []
                 yi = 0
                 for f in xs:
                     while yi < len(ys) and rng.random() < 0.6:
                         c07.outcome(p, Y, ys[yi])
+                        if rng.random() < 0.3:
+                            try:
+                                Y.encode(**al[0], **({'repeat_count': 1} if 'repeat_count' in p['enc_args'] else {}))
+                            except Exception:  # noqa
+                                pass
                         yi += 1
                     mixed.append(c07.outcome(p, X, f))
                 vlib.drain_workers()
@@ -150,7 +161,7 @@ def two_instances(ctx, protos, per):
             if alone != mixed:
                 hits[name] = True
                 ctx.report(name, 'activity on another instance changes the result', dict(frames=len(xs)),
-                           dict(protocol=name, x_frames=xs, y_frames=ys, alone=[list(o) for o in alone], interleaved=[list(o) for o in mixed]))
+                           dict(protocol=name, x_frames=xs, y_frames=ys, y_spawned_from_x=spawned, y_also_encodes=al[0], alone=[list(o) for o in alone], interleaved=[list(o) for o in mixed]))
                 break
         else:
             ctx.passed(name, dict(frames=0))
